@@ -23,6 +23,10 @@ Emit ==
   PrintT(ToJson([inputs |-> [j \in DOMAIN Ds.inputs |-> InputJson(Ds.inputs[j])], hasClim |-> FALSE, clim |-> InputJson(Ds.clim), climType |-> "subtract",
                  opts |-> OptJson(gen.opt), metric |-> m, axis |-> axis, legend |-> Legend, bt |-> "above", thresholds |-> <<0, 2, 3>>,
                  table |-> IF axis = "threshold" THEN TableJ(ThresholdTable(X, m, "above", Ths, Legend)) ELSE TableJ(ScoreTable(Ds, X, m, axis, Cfg, FALSE, Legend)),
+                 multi |-> IF axis # "threshold" /\ m \in {"ets", "hit", "n", "mae"}
+                           THEN <<[bt |-> "within", r |-> <<0, 2, 3>>, table |-> TableJ(AveragedTable(Ds, X, m, axis, "within", Ths, Legend))],
+                                  [bt |-> "above=", r |-> <<0, 2>>, table |-> TableJ(AveragedTable(Ds, X, m, axis, "above=", <<R(0), R(2)>>, Legend))]>>
+                           ELSE <<>>,
                  acc |-> IF axis = "threshold" THEN <<>> ELSE TableJ(ScoreTable(Ds, X, m, axis, Cfg, TRUE, Legend))]))
 Init == /\ gen \in {x \in Universe(0) : Usable(x)} /\ m \in Menu /\ axis \in AxisMenu /\ phase = "case"
         /\ (axis = "threshold" => m \in {"ets", "hit", "n"})
